@@ -88,7 +88,10 @@ def getOp (j : Json) : Except String Op := do
   | "modify" => do pure (.modify (← asPath (← getVal j "path")) (← asBytes (← getVal j "bytes")))
   | "delete" => do pure (.delete (← asPath (← getVal j "path")))
   | "restore" => do pure (.restore (← (← getArr j "tasks").mapM asStr))
-  | "remodel" => pure .remodel
+  | "remodel" => do pure (.remodel (← (← getArr j "tasks").mapM asStr))
+  | "restoreCrash" => do pure (.restoreCrash (← (← getArr j "tasks").mapM asStr) (← getNat j "k"))
+  | "remodelCrash" => do
+      pure (.remodelCrash (← (← getArr j "tasks").mapM asStr) (← (← getArr j "order").mapM asPath) (← getNat j "k"))
   | _ => throw s!"unknown history op {k}"
 
 /-- the transformation of the remodel run as a finite table (content -> content), identity elsewhere -/
@@ -135,12 +138,37 @@ def handle (op : String) (j : Json) : Option (Except String Json) :=
             | .ok s' => go s' r (jobj [("files", filesJson s' [])] :: acc)
         pure <| jobj [("keys", jarr (ks.map jstr)), ("after-create", filesJson s []),
                       ("trace", jarr (go s ops []))]
+  /- every crash point of a restore / remodel run on the given tree (backup `name` complete in it):
+     steps, and for each k the regular files of the tree; `expect` = the files a complete run rewrites -/
+  | "c18.opcrash" => some do
+      let c ← getCfg j
+      let s ← getTree j
+      let T ← getT j
+      let tasks ← (← getArr j "tasks").mapM asStr
+      let order ← (← getArr j "order").mapM asPath
+      let kind ← getString j "kind"
+      match scan s c.backups with
+      | .error e => pure <| jobj [("scan-err", Json.str (errName e))]
+      | .ok l =>
+        let ks := match l.find? (fun e => e.1 == c.name) with | some e => e.2 | none => []
+        let fs := ks.map splitKey
+        let steps := if kind == "restore" then restoreSteps c fs tasks s else remodelSteps c T fs tasks order s
+        let pts := (List.range (steps.length + 1)).map (fun k =>
+          jobj [("k", jnat k), ("files", filesJson (crashAfter k steps s) c.dataRoot)])
+        let whole := if kind == "restore" then restore c fs tasks s else remodel c T fs tasks s
+        pure <| jobj [("steps", jarr (steps.map stepJson)), ("points", jarr pts),
+                      ("expect", jarr ((fs.filter (fun f => selKey f && taskOk tasks f &&
+                          (picked tasks f || isReg s (c.dpath f)))).map jpath)),
+                      ("whole", match whole with
+                        | .error e => jobj [("err", Json.str (errName e))]
+                        | .ok s' => jobj [("files", filesJson s' c.dataRoot)])]
   /- key mapping and task filter in isolation -/
   | "c18.key" => some do
       let p ← asPath (← getVal j "path")
       let tasks ← (← getArr j "tasks").mapM asStr
       pure <| jobj [("key", jstr (joinKey p)), ("split", jpath (splitKey (joinKey p))),
                     ("picked", jbool (picked tasks p)), ("sel", jbool (selKey p)),
+                    ("bidsTask", jstr (bidsTask (p.getLastD []))), ("taskOk", jbool (taskOk tasks p)),
                     ("recordLen", jnat (record (← getStr j "stamp") [joinKey p]).length)]
   | _ => none
 
